@@ -15,7 +15,7 @@ RULE = ("streams = concatenations of 1-6 framed messages of all seven types (pay
         "variants (wrong magic at message k, length field > 32 MiB / == 32 MiB at message k, length one more / one less than the "
         "payload, trailing partial frame, messages exactly AT the limit -- the real 32 MiB one and small patched limits); fragmentations: ALL 2- and 3-way cuts of short streams (exhaustive) and Hypothesis-"
         "drawn many-way cuts (chunks 1..1024) of long streams; the same through a simulated node's full event path "
-        "(the node reads with its own recv size; drawn arrival sizes; greeting followed by 1-4, 25-70 or 1100-2200 messages). Oracle: the sequence of (header bytes, message bytes) handed on is identical for "
+        "(the node reads with its own recv size; drawn arrival sizes; greeting followed by 1-4, 25-70 or 2600-4200 messages). Oracle: the sequence of (header bytes, message bytes) handed on is identical for "
         "every fragmentation and equals the reference framer's parse; for a corrupted stream every message before the "
         "corruption is delivered exactly once, none after, and the refusal is raised by exactly the chunk that completes the "
         "offending 4-byte field (connection dropped there on the node path). non-trivial = fragmentation of a stream with >= 2 "
@@ -290,7 +290,7 @@ def run_node(res, tier, seed):
                 idx = [rnd.randrange(6) for _ in range(rnd.randrange(25, 70))]
                 k = rnd.randrange(len(idx))
             elif size == "burst":            # hundreds of tiny messages are in the socket when the node gets to read
-                idx = [rnd.choice([0, 2, 2, 4]) for _ in range(rnd.randrange(1100, 2200))]
+                idx = [rnd.choice([0, 2, 2, 4]) for _ in range(rnd.randrange(2600, 4200))]     # (deeper than any recursion limit in use)
                 k = len(idx) - 1 - rnd.randrange(50)
                 if rnd.random() < 0.5:
                     kind = "none"
@@ -334,7 +334,7 @@ def run_node(res, tier, seed):
         prop()
     finally:
         RP.ConnectedRemotePeer.handle_message_received = orig
-    res.sample({"node_path": "greeting + 1-4 / 25-70 / 1100-2200 small messages, 3 fragmentations each (everything in the socket at once + 2 drawn arrival schedules); the node reads with its own recv size"})
+    res.sample({"node_path": "greeting + 1-4 / 25-70 / 2600-4200 small messages, 3 fragmentations each (everything in the socket at once + 2 drawn arrival schedules); the node reads with its own recv size"})
     return res
 
 
